@@ -328,6 +328,27 @@ m = g(r.sub, p.sub) && g2(r.obj, p.obj) && r.act == p.act
 `
 
 // deterministic witnesses of the repaired findings F01 and F02: they must stay repaired
+// reloads rejected while the role links are rebuilt: decisions afterwards are those of a fresh
+// enforcer over whatever is listed (nothing of the rejected policy, nothing memoised before)
+func c04FailedReloads(c *Ctx) {
+	machFailedReloads(c, "c04", func(id string, m *mach, conf machConf) {
+		fresh := c04Fresh(conf.Text, m.E, nil)
+		for _, u := range []string{"alice", "bob", "carol", "dave", "admin", "staff"} {
+			var reqs [][]string
+			if conf.Text == machRBAC.Text {
+				reqs = [][]string{{u, "data1", "read"}, {u, "data2", "read"}}
+			} else {
+				reqs = [][]string{{u, "d1", "data1", "read"}, {u, "d2", "data1", "read"}}
+			}
+			for _, r := range reqs {
+				if a, b := c04Enf(m.E, r), c04Enf(fresh, r); a != b {
+					c.Direct(id, fmt.Sprintf("after a rejected reload the decision %s for %v differs from the fresh enforcer's %s", a, r, b), fmt.Sprintf("content=%v listed=%s", m.A.Content, m.listedKey()))
+				}
+			}
+		}
+	})
+}
+
 func c04Witnesses(c *Ctx) {
 	{ // F01: a matching function registered after the decision was memoised
 		mm, _ := model.NewModelFromString(c04PatternModel)
@@ -561,6 +582,7 @@ func c04Functions(c *Ctx) {
 
 func c04Wide(c *Ctx) {
 	c04Witnesses(c)
+	c04FailedReloads(c)
 	c04Conditional(c)
 	c04Functions(c)
 	nh := 150
